@@ -2,11 +2,15 @@
 use crate::engine::{Check, Ctx, Violation};
 use serde_json::Value;
 
+pub mod c01;
 pub mod c02;
 pub mod c03;
 pub mod c04;
 pub mod c05;
+pub mod c06;
 pub mod c07;
+pub mod c08;
+pub mod c09;
 pub mod c13;
 pub mod c13b;
 pub mod c19;
@@ -20,11 +24,15 @@ pub struct Prop {
 
 pub fn registry() -> Vec<Prop> {
     vec![
+        Prop { id: "C01", run: c01::run, replay: c01::replay },
         Prop { id: "C02", run: c02::run, replay: c02::replay },
         Prop { id: "C03", run: c03::run, replay: c03::replay },
         Prop { id: "C04", run: c04::run, replay: c04::replay },
         Prop { id: "C05", run: c05::run, replay: c05::replay },
+        Prop { id: "C06", run: c06::run, replay: c06::replay },
         Prop { id: "C07", run: c07::run, replay: c07::replay },
+        Prop { id: "C08", run: c08::run, replay: c08::replay },
+        Prop { id: "C09", run: c09::run, replay: c09::replay },
         Prop { id: "C13", run: c13::run, replay: c13::replay },
         Prop { id: "C19", run: c19::run, replay: c19::replay },
         Prop { id: "C20", run: c20::run, replay: c20::replay },
